@@ -261,7 +261,7 @@ VERIF_FAIL = [
     'invariant not satisfied', 'loop invariant not satisfied', 'possible arithmetic underflow/overflow',
     'decreases not satisfied', 'possible division by zero', 'possible bit shift underflow/overflow',
     'unreachable', 'recommendation not met', 'index out of bounds', 'could not prove termination',
-    'precondition not satisfied',
+    'precondition not satisfied', 'requires not satisfied',
 ]
 UNDECIDED_PAT = ['Resource limit', 'rlimit', 'timed out', 'solver', 'unknown']
 
